@@ -130,7 +130,7 @@ def case_variants(rng, label):
 
 
 def rand_string(rng, q):
-    pool = 'ab Z09_-+*/=<>&(),;:.#!?%^{}é漢語ñ\t' + ("'" if q == '"' else '"')
+    pool = 'ab Z09_-+*/=<>&(),;:.#!?%^{}é漢語ñ\t\n\r\x0b\u2028\u00a0\u201c\u201d\u2018\u2019\u00ab`' + ("'" if q == '"' else '"')
     n = rng.randint(0, 12)
     s = ''.join(rng.choice(pool) for _ in range(n))
     return s
@@ -229,6 +229,16 @@ def main(tier, replay=None):
                 ast = shape(F.string(t1, q))
                 texts = [render(set_sep(ast, s)) for s in (',', ';', chr(92))]
                 obs.append(run_variants(lib, ast, base_env(), texts, 'septext', False))
+    # numbers of every length on both sides of a separator: a separator never becomes part of a number (1,234 / 1;5 / 12\\5)
+    numlex = ['1', '12', '123', '1234', '0', '234', '100', '999', '000', '.5', '1.5', '12.25', '7%', '2^3', '5']
+    for a in numlex:
+        for b in numlex:
+            for shape in (lambda x, y: F.call('REC', x, y), lambda x, y: F.arr(x, y), lambda x, y: F.call('REC', x, y, x),
+                          lambda x, y: F.call('SUM', x, y)):
+                if rng.random() < (0.35 if quick else 1.0):
+                    ast = shape(F.num(a), F.num(b))
+                    texts = [render(set_sep(ast, sp)) for sp in (',', ';', chr(92))]
+                    obs.append(run_variants(lib, ast, base_env(), texts, 'numargs', True))
     # a content ending in a backslash, as the last token
     for s in ('a\\', '\\', 'x y\\'):
         for q in ('"', "'"):
